@@ -98,8 +98,8 @@ def zoo_task(t):
                 continue
             if e.has("batch_coupled_train") and mode == "train" and result == "inverse":
                 continue  # BatchNorm offers no inverse in training mode
-            if wrt == "params" and not any(True for _ in m.parameters()):
-                continue
+            if wrt == "params" and (not any(True for _ in m.parameters()) or e.has("badscale")):
+                continue  # (parameters of magnitude 1e-5: a finite-difference step of 1e-6 is no reference)
             if result == "sample_and_log_prob" and (not e.has("sample") or e.has("nonreparam") or (e.has("batch_coupled_train") and mode == "train")):
                 continue  # no sampler, or one that is not reparameterised by design (mixture components, Bernoulli)
             key = (mode, uc, hist, result, wrt, frozen)
